@@ -407,6 +407,13 @@ def _gen_bboxl(rng):
     labels = _labels(rng, n)
     if ldtype == 'bool':
         labels = [int(v != 0) for v in labels]
+    elif ldtype in ('uint8', 'int8') and n and rng.random() < 0.5:
+        # the largest label the dtype can hold (label+1 must not be computed in the label dtype)
+        top = 255 if ldtype == 'uint8' else 127
+        m = max(labels)
+        labels = [top if (v == m and v != 0) else v for v in labels]
+        if top not in labels:
+            labels[rng.randrange(n)] = top
     return dict(fn='bboxl', ldtype=ldtype, shape=shape, labels=labels, layout=rng.choice(gen.LAYOUTS))
 
 
